@@ -65,6 +65,7 @@ func (e *Engine) ensureInit(p *ssa.Package) {
 	// globals stored by the initialiser start as unknown, so that an aborted or skipped
 	// initialiser cannot make them read as zero
 	stored := map[*ssa.Global]bool{}
+	elemStored := map[*ssa.Global]bool{} // initialised field by field / element by element
 	var scan func(fn *ssa.Function, depth int)
 	seen := map[*ssa.Function]bool{}
 	scan = func(fn *ssa.Function, depth int) {
@@ -77,7 +78,11 @@ func (e *Engine) ensureInit(p *ssa.Package) {
 				switch x := in.(type) {
 				case *ssa.Store:
 					if g, ok := rootGlobal(x.Addr); ok && g.Pkg == p && g.Name() != "init$guard" {
-						stored[g] = true
+						if _, direct := x.Addr.(*ssa.Global); direct {
+							stored[g] = true
+						} else if !stored[g] {
+							elemStored[g] = true
+						}
 					}
 				case *ssa.Call:
 					if callee, ok := x.Call.Value.(*ssa.Function); ok && callee.Pkg == p && strings.HasPrefix(callee.Name(), "init") {
@@ -95,6 +100,11 @@ func (e *Engine) ensureInit(p *ssa.Package) {
 		}
 	}
 	if skip {
+		for g := range elemStored {
+			if _, ok := e.globals[g]; !ok {
+				e.newGlobal(g, true)
+			}
+		}
 		return
 	}
 	wasIniting := e.initing
@@ -124,6 +134,19 @@ func (e *Engine) ensureInit(p *ssa.Package) {
 	}
 	for id, v := range st.Heap {
 		e.Base[id] = v
+	}
+	if st.Status != "done" {
+		// element-wise initialised globals may be half-built: never let them read as zero
+		for g := range elemStored {
+			if stored[g] {
+				continue
+			}
+			id, ok := e.globals[g]
+			if !ok {
+				id = e.newGlobal(g, true)
+			}
+			e.Base[id] = UnknownV{"global " + g.String() + ": package initialiser aborted"}
+		}
 	}
 }
 
